@@ -82,7 +82,7 @@ EncFieldV(s, f, x, tagged, var) ==
   IF f.arr THEN
     IF IsNull(x) THEN ArrLen(FieldFlex(s, f), -1)
     ELSE ArrLen(FieldFlex(s, f), Len(x.seq))
-         \o FlattenSeq([i \in 1..Len(x.seq) |-> EncItemV(s, f, x.seq[i], var)])
+         \o Flatten([i \in 1..Len(x.seq) |-> EncItemV(s, f, x.seq[i], var)])
   ELSE IF f.kind = "struct" /\ f.nul THEN
     IF IsNull(x) THEN <<NullableStructNull>>
     ELSE <<NullableStructPresent>> \o EncStructV(f.sub, x, var)
@@ -105,11 +105,11 @@ TagEntries(s, v, var) ==
 TagSection(s, v, var) ==
   LET E == TagEntries(s, v, var) IN
   UVarNat(Len(E))
-  \o FlattenSeq([j \in 1..Len(E) |-> UVarNat(E[j].tag) \o UVarNat(Len(E[j].data)) \o E[j].data])
+  \o Flatten([j \in 1..Len(E) |-> UVarNat(E[j].tag) \o UVarNat(Len(E[j].data)) \o E[j].data])
 
 EncStructV(s, v, var) ==
   LET U == UntaggedIdx(s)
-      body == FlattenSeq([j \in 1..Len(U) |-> EncFieldV(s, s.fields[U[j]], v.rec[U[j]], FALSE, var)])
+      body == Flatten([j \in 1..Len(U) |-> EncFieldV(s, s.fields[U[j]], v.rec[U[j]], FALSE, var)])
   IN IF s.flex THEN body \o TagSection(s, v, var) ELSE body
 
 Enc(s, v) == EncStructV(s, v, CanonVar)
